@@ -54,7 +54,7 @@ type reifyTypeFunc func(context.Context, dagpb.PBNode, data.UnixFSData, *ipld.Li
 var reifyFuncs = map[int64]reifyTypeFunc{
 	data.Data_File:      unixFSFileReifierWithPreload,
 	data.Data_Metadata:  defaultUnixFSReifier,
-	data.Data_Raw:       unixFSFileReifier,
+	data.Data_Raw:       unixFSFileReifierWithPreload,
 	data.Data_Symlink:   defaultUnixFSReifier,
 	data.Data_Directory: directory.NewUnixFSBasicDir,
 	data.Data_HAMTShard: hamt.NewUnixFSHAMTShardWithPreload,
